@@ -290,3 +290,56 @@ func lemmaDailySlotInDataArea(t time.Time, recordSize int32) {
 
 //@ func NewColumnSeriesMap
 //@ inline
+
+// ---------------------------------------------------------------------------------------------
+// C16: paths built from a bucket key stay under the data root (ghost-predicate flow)
+// underRoot(p): path p denotes a location inside the configured root directory.
+// safeItem(s): s is one plain directory name.  itemsLen/itemAt: the items of a key (strings.Split, abstracted).
+
+//@ ghost func underRoot(s str) bool
+//@ ghost func safeItem(s str) bool = len(s) > 0 && !(len(s) == 1 && s[0] == 46) && !(len(s) == 2 && s[0] == 46 && s[1] == 46) && forallint(i, (0 <= i && i < len(s)) ==> (s[i] != 47 && s[i] != 92 && s[i] != 0))
+//@ ghost func itemsLen(key str) int
+//@ ghost func itemAt(key str, i int) str
+//@ ghost func allItemsSafe(key str) bool = forallint(i, (0 <= i && i < itemsLen(key)) ==> safeItem(itemAt(key, i)))
+// yearFileOf(p, key): p is <root>/<item 0>/.../<item n-1>/<year>.bin for the items of key
+//@ ghost func yearFileOf(p str, key str) bool
+//@ ghost func keyDirOf(p str, key str) bool
+//@ axiom #yearFileUnderRoot: forallstr(p, key, pattern(yearFileOf(p, key)), (yearFileOf(p, key) && allItemsSafe(key)) ==> underRoot(p))
+
+//@ func ValidKeyItem
+//@ props C16
+//@ loop 0 invariant #scan: 0 <= i && i <= len(item) && forall(k, 0, i, item[k] != 47 && item[k] != 92 && item[k] != 0)
+//@ ensures #sound: result ==> safeItem(item)
+
+//@ func (*TimeBucketKey).GetItems
+//@ trusted "strings.Split of the item part of the key: a pure function of the key string, abstracted by itemsLen/itemAt"
+//@ pure
+//@ ensures len(items) == itemsLen(mk.key) && itemsLen(mk.key) >= 1
+//@ ensures forall(i, 0, len(items), same(items[i], itemAt(mk.key, i)))
+
+//@ ghost func catsLen(key str) int
+//@ func (*TimeBucketKey).GetCategories
+//@ trusted "strings.Split of the category part of the key"
+//@ pure
+//@ ensures len(cats) == catsLen(mk.key)
+
+//@ func (*TimeBucketKey).Validate
+//@ props C16
+//@ loop 0 invariant #idx: 0 <= iter0 && iter0 <= len(items)
+//@ loop 0 invariant #safe: forall(k, 0, iter0, safeItem(items[k]))
+//@ ensures #ok: result == nil ==> allItemsSafe(mk.key)
+
+//@ func (*TimeBucketKey).GetPathToYearFiles
+//@ trusted "filepath.Join(rootDir, itemKey): abstracted by keyDirOf"
+//@ pure
+//@ marks #dir: keyDirOf(result, mk.key)
+
+//@ func NewTimeBucketInfo
+//@ trusted "constructor: Path = filepath.Join(path, <year>.bin); only the path relation is stated here"
+//@ modifies none
+//@ marks #path: forallstr(key, pattern(keyDirOf(path, key)), keyDirOf(path, key) ==> yearFileOf(f.Path, key))
+
+//@ func (*TimeBucketInfo).GetDeepCopy
+//@ trusted "lazily loads the header of f (sync.Once + file read) and returns a copy: writes TimeBucketInfo objects only"
+//@ modifies mem:utils.io.TimeBucketInfo
+//@ ensures fresh(result)
